@@ -22,6 +22,10 @@ Source modelled:
   simulation/simulation_helpers.py  batch_simulations `batchSimulations`
   simulation/simulation_manager.py  _run_simulations_debug     `runBatches`, `runAll`
 
+The model follows the repaired code: join on the key (4d10ac0), kept marker anchored at the start of
+the name (882e6bc), only the folder named `Logs` is skipped (14dc81b), a fully covered year counts its
+own number of days (d471a7e).
+
 A directory is a list of files `(name, content)`; a *listing* is whatever `os.scandir` returned for
 it (any permutation).  Summary tables are lists of `(key, row)` with key = (program, simulation) as
 they are captured from the file name.  pandas' row order of a table is not modelled: tables are
